@@ -99,6 +99,11 @@ var chanVariants = []struct {
 		{UUID: chTelA, Name: "Seattle", Address: "+12065550000", Schemes: []string{"tel"}, Roles: sr, Country: "US"},
 		{UUID: chTelB, Name: "SF", Address: "+14155550000", Schemes: []string{"tel"}, Roles: sr},
 	}},
+	{"aggregator+gateways", []chanDef{ // a tel channel without a country; two channels that both serve ext and mailto
+		{UUID: chTelA, Name: "Line", Address: "2020", Schemes: []string{"tel"}, Roles: sr},
+		{UUID: chFB, Name: "Gateway A", Address: "gwa", Schemes: []string{"ext", "mailto"}, Roles: sr},
+		{UUID: chTG, Name: "Gateway B", Address: "gwb", Schemes: []string{"ext", "mailto"}, Roles: sr},
+	}},
 	{"tel-two-countries", []chanDef{ // the candidates for one number belong to different countries (one is international)
 		{UUID: chTelA, Name: "RW Line", Address: "+250788000000", Schemes: []string{"tel"}, Roles: sr, Country: "RW"},
 		{UUID: chTelB, Name: "UG Intl", Address: "+256700000000", Schemes: []string{"tel"}, Roles: sr, Country: "UG", Intl: true, Prefixes: []string{"25073"}},
@@ -210,9 +215,43 @@ func mkURN(scheme, path, affinity, display string) string {
 
 // genSlot makes a twin pair for one URN occurrence.  keepDigits>0: tel twins share that many leading digits.
 func genSlot(r *hx.Rand, scheme string, affinity string, telStem int, identical bool) urnSlot {
+	// URNs that are valid as stored but CHANGE when goflow normalizes them (urns.NewFromParts / Normalize): whatever
+	// re-normalizes a held URN makes the outcome depend on the hidden path
+	unstable := unstableURNs && r.Fork("unstable").Chance(1, 5)
 	for try := 0; try < 200; try++ {
 		var a, b, country string
-		if scheme == "tel" {
+		if unstable && (scheme == "tel" || scheme == "mailto" || scheme == "ext") {
+			ur := r.Fork(fmt.Sprintf("u%d", try))
+			switch scheme {
+			case "tel": // no '+': no derivable country as stored; with a '+' prepended one twin becomes a number of a region
+				pair := hx.Pick(ur, [][2]string{{"1206555", "1200555"}, {"1415555", "1200555"}, {"250788", "0788"}, {"1206555", "1206555"}, {"0788", "0722"}})
+				suffix := map[string]int{"1206555": 4, "1200555": 4, "1415555": 4, "250788": 6, "0788": 6, "0722": 6}
+				a = mkURN("tel", pair[0]+digits(ur, suffix[pair[0]]), affinity, "")
+				b = mkURN("tel", pair[1]+digits(ur, suffix[pair[1]]), affinity, "")
+			case "mailto":
+				if ur.Chance(1, 3) { // lower-casing makes the path longer than the 255 byte limit
+					a = mkURN("mailto", strings.Repeat("Ⱥ", 126)+"@bb", affinity, "")
+					b = mkURN("mailto", strings.Repeat("a", 252)+"@bb", affinity, "")
+				} else {
+					a = mkURN("mailto", strings.ToUpper(letters(ur, 5))+"@Example.COM", affinity, "")
+					b = mkURN("mailto", letters(ur, 6)+"@example.com", affinity, "")
+				}
+			default: // ext: blank path / inner and outer spaces
+				a = mkURN("ext", hx.Pick(ur, []string{" ", "  ", " ab cd ", "x "}), affinity, "")
+				b = mkURN("ext", hx.Pick(ur, []string{"x", "ab cd", "y9"}), affinity, "")
+			}
+			if ur.Bool() {
+				a, b = b, a
+			}
+			ca := string(i18n.DeriveCountryFromTel(urns.URN(a).Path()))
+			cb := string(i18n.DeriveCountryFromTel(urns.URN(b).Path()))
+			if scheme == "tel" && ca != cb {
+				continue
+			}
+			if scheme == "tel" {
+				country = ca
+			}
+		} else if scheme == "tel" {
 			st := telStems[telStem%len(telStems)]
 			a = mkURN("tel", "+"+st.stem+digits(r, st.total-len(st.stem)), affinity, "")
 			b = mkURN("tel", "+"+st.stem+digits(r, st.total-len(st.stem)), affinity, "")
@@ -241,6 +280,16 @@ func genSlot(r *hx.Rand, scheme string, affinity string, telStem int, identical 
 		return urnSlot{Scheme: scheme, Affinity: affinity, A: a, B: b, Country: country}
 	}
 	panic("could not generate a valid twin pair for scheme " + scheme)
+}
+
+// unstableURNs switches the normalization-unstable twin URNs on (always, except where a caller needs stable ones)
+var unstableURNs = true
+
+func btoi(b bool) int {
+	if b {
+		return 1
+	}
+	return 0
 }
 
 // ---- scenario -----------------------------------------------------------------------------------
@@ -286,6 +335,8 @@ type scenario struct {
 	// effect then depends on a comparison with the hidden path
 	AddURNProbe int `json:"add_urn_probe,omitempty"`
 	SetChannel  bool        `json:"set_channel"`
+	SetChannelIdx  int      `json:"set_channel_idx,omitempty"`  // 0 = the last channel of the set, k = channel k-1
+	SetChannelNull bool     `json:"set_channel_null,omitempty"` // set_contact_channel with channel: null (clears every affinity)
 	Tpl         [7]string   `json:"templates"`
 	Resumes     []resumeDef `json:"resumes"`
 	Country     string      `json:"default_country"`
@@ -418,7 +469,11 @@ func genScenario(r *hx.Rand, id int) *scenario {
 			sc.AddURNProbe = k + 1
 		}
 	}
-	sc.SetChannel = r.Chance(1, 4) && len(sc.chans()) > 0
+	sc.SetChannel = r.Chance(1, 3) && len(sc.chans()) > 0
+	sc.SetChannelNull = sc.SetChannel && r.Fork("setnull").Chance(1, 3)
+	if sc.SetChannel {
+		sc.SetChannelIdx = r.Fork("setidx").Intn(len(sc.chans()) + 1)
+	}
 	for i := range sc.Tpl {
 		sc.Tpl[i] = hx.Pick(r, flowTemplates)
 	}
@@ -551,9 +606,24 @@ func corpusScenarios() []*scenario {
 	zp.Parent = &contactDef{UUID: parentCUUID, ID: 0, Name: "", Slots: []urnSlot{fixed("tel", "tel:+12065553333", "tel:+12065554444")}, Fields: map[string]any{}}
 	out = append(out, zp)
 	// DIVERGENT, second sink: the two candidate channels have different countries -> environment country RW vs UG
-	d3 := base("divergent-tel-channel-country", 6, "Ann", fixed("tel", "tel:+250788123123", "tel:+250738123123"))
+	d3 := base("divergent-tel-channel-country", 7, "Ann", fixed("tel", "tel:+250788123123", "tel:+250738123123"))
 	d3.Country = ""
 	out = append(out, d3)
+	// set_contact_channel on URNs that are valid as stored but change when re-normalized (hunt2 findings 1 and 2)
+	sc1 := base("set-channel-tel-without-plus", 6, "", fixed("tel", "tel:12065551212", "tel:12005551212"))
+	sc1.Country = "RW"
+	sc1.SetChannel, sc1.SetChannelIdx = true, 1
+	out = append(out, sc1)
+	sc2 := base("clear-channel-tel-without-plus", 0, "", fixed("tel", "tel:12065551212?channel="+chTelA, "tel:12005551212?channel="+chTelA))
+	sc2.Contact.Slots[0].Affinity = chTelA
+	sc2.SetChannel, sc2.SetChannelNull = true, true
+	out = append(out, sc2)
+	sc3 := base("set-channel-mailto-at-length-limit", 6, "Ann", fixed("mailto", "mailto:"+strings.Repeat("Ⱥ", 126)+"@bb", "mailto:"+strings.Repeat("a", 252)+"@bb"))
+	sc3.SetChannel = true
+	out = append(out, sc3)
+	sc4 := base("set-channel-ext-blank-path", 6, "", fixed("ext", "ext: ", "ext:x"), fixed("facebook", "facebook:1122334455667788", "facebook:9988776655443322"))
+	sc4.SetChannel = true
+	out = append(out, sc4)
 	// MEMBERSHIP PROBE: add_contact_urn with the number side A holds (one tel channel: no channel divergence)
 	pb := base("add-urn-probe-held-by-one-twin", 0, "", fixed("tel", "tel:+12065551212", "tel:+12065553434"))
 	pb.AddURN, pb.AddURNProbe = true, 1
@@ -745,7 +815,14 @@ func (sc *scenario) assetsJSON() []byte {
 	}
 	if sc.SetChannel {
 		ch := sc.chans()[len(sc.chans())-1]
-		n1acts = append(n1acts, map[string]any{"uuid": "a0000000-0000-4000-8000-000000000006", "type": "set_contact_channel", "channel": map[string]any{"uuid": ch.UUID, "name": ch.Name}})
+		if sc.SetChannelIdx > 0 && sc.SetChannelIdx <= len(sc.chans()) {
+			ch = sc.chans()[sc.SetChannelIdx-1]
+		}
+		act := map[string]any{"uuid": "a0000000-0000-4000-8000-000000000006", "type": "set_contact_channel", "channel": map[string]any{"uuid": ch.UUID, "name": ch.Name}}
+		if sc.SetChannelNull {
+			act["channel"] = nil
+		}
+		n1acts = append(n1acts, act)
 	}
 	n1acts = append(n1acts, send("a0000000-0000-4000-8000-000000000007", sc.Tpl[3]))
 	waitNode := func(uuid, resName, catUUID, exitUUID, dest string) map[string]any {
